@@ -75,10 +75,23 @@ def binding_rule(chk, rule, fi, forward_attr):
                 return has_args
             return None
 
-        outs = Interp(prog, fi, decide=decide).run()
+        owner = fi.cls
+        outs = Interp(prog, fi, decide=decide, inline=lambda f, ct: owner is not None and f.cls is owner and f.name not in ("accept", "shutdown", "adopt", "execute")).run()
         chk.count(len(outs))
         label = "with arguments" if has_args else "without arguments"
         for o in outs:
+            forks = [e for e in o.path.events if e[0] in ("branch", "fork") and e[-1] == "forked"]
+            if forks:
+                chk.bad(
+                    rule,
+                    name,
+                    "whether the arguments are bound depends on %s, i.e. on the VALUES of the arguments and not on whether any were given: e.g. all-falsy positionals (0, None, '') are dropped and the payload starts without them" % show(strip_sites(forks[0][1])),
+                    node=fi.node,
+                    stmt="binding-condition %s" % show(strip_sites(forks[0][1]))[:60],
+                    input=label,
+                )
+                ok = False
+                continue
             if o.kind == "raise":
                 chk.bad(rule, name, "%s raises %s before forwarding the payload" % (fi.name, show(o.value)), node=fi.node, stmt="raises", input=label)
                 ok = False
